@@ -26,9 +26,12 @@
 (***************************************************************************)
 EXTENDS Integers, Sequences, TLC
 
-Terminators == {"x", "xt", "xbig", "eof", "rerr", "lclose", "mp", "mhp", "heof"}
+\* "eofd": one more good message arrives in the same read as the peer's close
+\* "idle": (server with ReadTimeout) nothing arrives for longer than the timeout; the library gives the
+\* connection up: the transport must be closed by the end of the step, and the channels with it
+Terminators == {"x", "xt", "xbig", "eof", "eofd", "rerr", "lclose", "mp", "mhp", "heof", "idle"}
 Requests(ev) == IF ev \in {"mh", "mm", "cn", "mhp"} THEN 1 ELSE 0
-Delivers(ev) == CASE ev \in {"m", "mh", "m2", "mp", "mhp", "heof"} -> 1 [] ev = "mm" -> 2 [] OTHER -> 0
+Delivers(ev) == CASE ev \in {"m", "mh", "m2", "mp", "mhp", "heof", "eofd"} -> 1 [] ev = "mm" -> 2 [] OTHER -> 0
 
 \* has the reader switched to the pipe (is the copier running) when message k is read?  A request made
 \* by a handler takes effect at the next read; one made from another goroutine while the reader is
@@ -46,6 +49,8 @@ Check(sched, steps, k, nreq, ndel, term) ==
            term2 == term \/ ev \in Terminators
            o == steps[k]
        IN IF o.panic THEN <<"panic">>
+          ELSE IF o.hung THEN <<"closenotify-call-did-not-return">>
+          ELSE IF ev = "idle" /\ ~o.tclosed THEN <<"not-terminated-after-read-timeout">>
           ELSE IF ev = "heof" /\ Switched(sched, k) /\ (\E i \in 1..Len(o.held) : ~o.held[i]) THEN <<"not-closed-while-handler-runs">>
           ELSE IF Len(o.chans) # nreq2 THEN <<"harness-channel-count">>
           ELSE IF ~term2 /\ (\E i \in 1..Len(o.chans) : o.chans[i]) THEN <<"closed-before-termination">>
